@@ -599,7 +599,7 @@ func classOf(c cfg) string {
 	switch c.layer {
 	case "kex x hostkey":
 		return "kex=" + c.kex + " hostkey=" + c.algo
-	case "hash size x key length":
+	case "hash size x key length", "kex x cipher":
 		return "kex=" + c.kex + " cipher=" + c.cipher + " mac=" + c.mac
 	}
 	return "cipher=" + c.cipher + " mac=" + c.mac
@@ -755,7 +755,7 @@ func (e *env) goRun(cf cfg) {
 	x := expect{cfg: cf, exchanges: 2, exactEx: true, c2s: sentPerEpoch, s2c: sentPerEpoch, who: "go-client",
 		hookClient: kexRecords(ckey), hookServer: kexRecords(skey)}
 	e.decodeAndCheck(c2s.bytes(), s2c.bytes(), cliRand.snapshot(), srvRand.snapshot(), x)
-	c.Nontrivial("go|" + cf.layer + "|" + classOf(cf))
+	c.Nontrivial(fmt.Sprintf("go|%s|%s|server-initiated-rekey=%v", cf.layer, cf.String(), cf.serverRekey))
 	if c.WantSample() {
 		c.Sample(map[string]any{"peer": "Go client", "config": cf.String(), "wire_bytes": len(c2s.bytes()) + len(s2c.bytes())})
 	}
@@ -973,7 +973,7 @@ func (o *openssh) run(cf cfg, payload []byte) {
 	// exchanges the session needed, at most the ones the server computed
 	x := expect{cfg: cf, exchanges: min(len(recs), 2), maxEx: len(recs), totalC2S: payload, totalS2C: payload, who: "openssh-client", hookServer: recs}
 	e.decodeAndCheck(c2s, s2c, nil, run.rand.snapshot(), x)
-	c.Nontrivial("openssh|" + cf.layer + "|" + classOf(cf))
+	c.Nontrivial(fmt.Sprintf("openssh|%s|%s|client-rekey-limit=%v|%d", cf.layer, cf.String(), cf.clientLimit, len(payload)))
 	if c.WantSample() {
 		c.Sample(map[string]any{"peer": o.version, "config": cf.String(), "exchanges": len(recs), "wire_bytes": len(c2s) + len(s2c)})
 	}
@@ -1063,6 +1063,14 @@ func run(c *vf.Ctx) {
 		for _, ci := range e.ciphers {
 			for _, m := range e.macs {
 				goCfgs = append(goCfgs, cfg{layer: "cipher x mac", kex: "ecdh-sha2-nistp256", algo: "rsa-sha2-512", cipher: ci, mac: m, serverRekey: true})
+			}
+		}
+	}
+	if c.Thorough {
+		// third pass: every key exchange x every cipher (exchange hash size against key/IV sizes)
+		for _, k := range e.kex {
+			for _, ci := range e.ciphers {
+				goCfgs = append(goCfgs, cfg{layer: "kex x cipher", kex: k, algo: "ecdsa-sha2-nistp256", cipher: ci, mac: "hmac-sha2-512"})
 			}
 		}
 	}
